@@ -55,6 +55,18 @@ Bounded exhaustive exploration on the real code:
  (vt)  value TYPES of a parameter: every parameter of the default set x a type alphabet (Python bool / int / float / str,
        numpy integer / float / bool / str scalars, inf, nan): every value that set_value accepts must survive
        dump_file -> tomllib -> read_file in a fresh object.
+ (R)   MODEL NAMES as a dimension of the recycling histories: two models A and B whose names are RELATED (the name of A
+       reads as a file-name pattern - [set] [range] [!set] * ? - that matches the name of B; A's name is a prefix of B's;
+       B's name is A's name followed by '~...') write into ONE directory: every sequence (bounded length) of write_pickle /
+       estimate(html + pickle) (thorough: / the user deletes the model's most recent pickle) by either model; after every
+       step nothing earlier is touched, the reported names are the new entries, the pickle reads back, and for BOTH models
+       estimate(recycle=True) and recycled_estimation() return the results that model saved last (a model that saved
+       nothing estimates its own model and never receives the other model's results), files_of_type('pickle') lists every
+       file the model saved and none of the other model's; the same names in part (n) and in the long histories (L);
+ (fn)  the parameter-file round trip under an alphabet of FILE NAMES (blanks, dots, non-ASCII, brackets, '~', hidden, no
+       extension, sub-directory, long); names that read_file documents as invalid (< > : " / backslash | ? *) are counted as outside;
+ part (iii), results objects without derivatives: a writer that produces no report must not leave a report file of the
+       model behind that lists no parameter.
 """
 from __future__ import annotations
 
@@ -79,7 +91,9 @@ TECHNIQUE = ('explicit-state BFS over output-generation histories in pre-populat
              'point that asks for a fresh name, against a reference model of the directory; bounded exhaustive '
              'enumeration of results objects over a magnitude / special-value alphabet of their figures, every printed '
              'token of every report format read by an independent reader; enumeration of the value-type alphabet of '
-             'every parameter through the TOML round trip')
+             'every parameter through the TOML round trip; depth-first enumeration of all bounded write / estimate / delete '
+             'histories of TWO models with related names (pattern characters, prefixes, tilde) in one directory, both '
+             'models recycling after every step, against a reference model that records who saved what and when')
 RULE = ('(i) one case per (model kind, name pool, bootstrap) results object and compared artefact; (ii) one case per '
         'set of <=2 deviations (parameter, value) from the default parameter set, non-trivial when the file differs '
         'from the default file; hand-written files: one case per (boolean parameter, spelling); (iii) one case per '
@@ -96,7 +110,10 @@ RULE = ('(i) one case per (model kind, name pool, bootstrap) results object and 
         '(fig) one case per (results object = (estimates, standard errors, correlation, robust ratio, bootstrap, shape of '
         'the second-derivative matrix) of the product of the seed\'s alphabets, report writer variant); every case is '
         'non-trivial; the first object of every estimate runs every writer variant, the others the widest variant; '
-        '(vt) one case per (parameter, typed value) accepted by set_value. '
+        '(vt) one case per (parameter, typed value) accepted by set_value; '
+        '(R) one case per (pair of related model names, history of w / est / del steps by either model), non-trivial from '
+        'the second step on, outcome = what each of the two models recycles (own latest / fresh estimation / ambiguous); '
+        '(fn) one case per (file name, set of deviations). '
         'distinct = distinct (part, witness) keys.')
 ASSUMPTIONS = [
     'datetime.now() as seen from biogeme.biogeme / biogeme.results / biogeme.parameters is owned (frozen instant), so '
@@ -129,6 +146,15 @@ ASSUMPTIONS = [
     'reference TOML parser: stdlib tomllib; reference naming rule: the docstring of get_new_file_name',
     'part (w) demands only what the statement says (earlier entries untouched, reported name new, it is the one new '
     'entry, it reads back), not a particular name; model names are non-empty strings without path separators',
+    'part (R): a model owns the files it wrote; a file of the OTHER model that carries a documented output name of this '
+    'model (name.ext or name~xx.ext with xx an integer, e.g. the model "m~00" next to the model "m") cannot be told apart by '
+    'its name: nothing is demanded of the model it confuses (counted); earlier files are made older than later ones '
+    '(os.utime in creation order) so that "saved last" is well defined; a step is undone on the harness side (files '
+    'removed / restored, reference model reset) instead of re-executing the prefix, the two BIOGEME objects live for the '
+    'whole task (the oracle does not depend on their start values); replay re-executes the history from an empty directory',
+    'part (fn): admissible file name = base name not empty, at most 255 characters, none of < > : " / \\ | ? * (the rule '
+    'read_file documents); dump_file accepting a name that read_file refuses is outside the statement (the quantifier is over '
+    'file contents), counted',
     'part (p): dump_file always goes to a new file name (parameter files are outside the no-overwrite clause); reading a '
     'hand-written partial file changes exactly the listed entries (the behaviour part (ii) already checks for a fresh object)',
 ]
@@ -3208,33 +3234,15 @@ class PairHistory:
             y = 'B' if x == 'A' else 'A'
             name, b = self.names[x], self.bio[x]
             wit = r_witness(name, self.names[y])
-            claimable_newer = False
-            for ext in ('pickle', 'html'):
-                try:
-                    found = set(b.files_of_type(ext))
-                except Exception as e:
-                    return labels, (f'files_of_type-raises-{type(e).__name__}', wit, f'{name!r}.files_of_type({ext!r}): {e}')
-                mine = [o[0] for o in self.own[x] if o[1] == ext]
-                theirs = [o[0] for o in self.own[y] if o[1] == ext]
-                ambiguous = [fn for fn in theirs if r_documented_name_of(name, fn, ext)]
-                if ambiguous and rec is not None:
+            mine = [o for o in self.own[x] if o[1] == 'pickle']
+            theirs = [o[0] for o in self.own[y] if o[1] == 'pickle']
+            ambiguous = [fn for fn in theirs if r_documented_name_of(name, fn, 'pickle')]
+            if ambiguous:
+                # the file name alone cannot tell whose results these are: nothing is demanded of this model here
+                if rec is not None:
                     rec.count('file_of_the_other_model_carries_a_documented_name_of_this_model_out_of_domain')
-                if ext == 'pickle' and ambiguous:
-                    claimable_newer = True
-                missing = sorted(set(mine) - found)
-                if missing:
-                    return labels, ('own-saved-results-not-found', wit,
-                                    f'the model {name!r} wrote {mine}; files_of_type({ext!r}) gives {sorted(found)} '
-                                    f'(directory: {sorted(self.snap)})')
-                taken = sorted(found & (set(theirs) - set(ambiguous)))
-                if taken:
-                    return labels, ('saved-results-of-another-model-taken-for-own', wit,
-                                    f'files_of_type({ext!r}) of the model {name!r} lists {taken}, written by the model '
-                                    f'{self.names[y]!r} (own files: {mine})')
-            if claimable_newer:
                 labels.append('ambiguous')
                 continue
-            mine = [o for o in self.own[x] if o[1] == 'pickle']
             for entry in ('estimate(recycle=True)', 'recycled_estimation()'):
                 b.user_notes = f'{x}: fresh estimation'
                 before = self.snap
@@ -3266,6 +3274,22 @@ class PairHistory:
                                     f'{entry} of the model {name!r}, which saved nothing, returned results noted {notes!r}')
                 if snapshot() != before:
                     return labels, ('recycle-wrote-files', wit, f'{entry} of the model {name!r} changed the directory')
+            # the list of saved results the model goes by (the mechanism of recycling): every file the model saved, no
+            # file the other model saved - otherwise some continuation of the history recycles the wrong results
+            try:
+                found = set(b.files_of_type('pickle'))
+            except Exception as e:
+                return labels, (f'files_of_type-raises-{type(e).__name__}', wit, f'{name!r}.files_of_type("pickle"): {e}')
+            missing = sorted({o[0] for o in mine} - found)
+            if missing:
+                return labels, ('own-saved-results-not-found', wit,
+                                f'the model {name!r} saved {[o[0] for o in mine]}; files_of_type("pickle") gives '
+                                f'{sorted(found)} (directory: {sorted(self.snap)})')
+            taken = sorted(found & set(theirs))
+            if taken:
+                return labels, ('saved-results-of-another-model-taken-for-own', wit,
+                                f'files_of_type("pickle") of the model {name!r} lists {taken}, saved by the model '
+                                f'{self.names[y]!r} (own files: {[o[0] for o in mine]})')
             labels.append('own-latest' if mine else 'fresh-estimation')
         return labels, None
 
